@@ -31,7 +31,7 @@ pub trait GetLeadingTrivia {
         self.leading_trivia()
             .iter()
             .filter(|token| trivia_is_comment(token))
-            .cloned()
+            .map(normalise_moved_comment)
             .collect()
     }
 }
@@ -51,13 +51,25 @@ pub trait GetTrailingTrivia {
             .filter(|token| trivia_is_comment_search(token, search))
             .flat_map(|x| {
                 // Prepend a single space beforehand
-                vec![Token::new(TokenType::spaces(1)), x.to_owned()]
+                vec![Token::new(TokenType::spaces(1)), normalise_moved_comment(x)]
             })
             .collect()
     }
 
     fn trailing_comments(&self) -> Vec<Token> {
         self.trailing_comments_search(CommentSearch::All)
+    }
+}
+
+/// A comment that is collected to be re-attached elsewhere does not pass through the token formatter.
+/// A single line comment must still lose its trailing whitespace (and the `\r` of a CRLF line ending), as it
+/// does when it is formatted in place.
+fn normalise_moved_comment(trivia: &Token) -> Token {
+    match trivia.token_type() {
+        TokenType::SingleLineComment { comment } => Token::new(TokenType::SingleLineComment {
+            comment: comment.trim_end().into(),
+        }),
+        _ => trivia.to_owned(),
     }
 }
 
